@@ -158,7 +158,7 @@ fn candidates(own_modulus: u8, moduli: &[u8], chunk: usize, thorough: bool) -> V
         v.push(("trace_length", P { log_len, ..base.clone() }));
         v.push(("trace_length (blowup 2)", P { log_len, blowup: 2, ..base.clone() }));
     }
-    for meta in metadata_family(if thorough { 12 } else { 10 }, chunk) {
+    for meta in metadata_family(if thorough { 16 } else { 10 }, chunk) {
         v.push(("metadata", P { meta, ..base.clone() }));
     }
     for &m in moduli {
@@ -401,7 +401,7 @@ pub fn run(args: &Args) {
     report.sample(json!({"field": "f128", "family": "modulus", "members": ["f64 modulus", "f62 modulus", "f128 modulus"], "oracle": "pairwise distinct"}));
     report.sample(json!({"field": "f64", "family": "grinding x queries", "members": "33 x 255", "oracle": "pairwise distinct (also against every other family)"}));
     report.exhaustive = true;
-    report.bounds = json!({"fields": ["f64", "f62", "f128"], "main_width": "0..=257 offered, with and without aux segment", "aux_width": "0..=257 offered", "aux_rands": "0..=257 offered", "trace_length": "2^0..2^40 offered (blowup 8 and 2)", "metadata": format!("all strings over {{0,1}} of length <= {} + patterns around 1, 2, 3 chunks", if thorough { 12 } else { 10 }),
+    report.bounds = json!({"fields": ["f64", "f62", "f128"], "main_width": "0..=257 offered, with and without aux segment", "aux_width": "0..=257 offered", "aux_rands": "0..=257 offered", "trace_length": "2^0..2^40 offered (blowup 8 and 2)", "metadata": format!("all strings over {{0,1}} of length <= {} + patterns around 1, 2, 3 chunks", if thorough { 16 } else { 10 }),
         "constraint_count": format!("0..={} and +-2 around 2^8..2^32", if thorough { 70000 } else { 4100 }), "extension": "all 3", "blowup": "0..=300 offered", "folding": "0..=40 offered", "remainder_degree": "0..=300 offered", "grinding": "0..=40 offered", "queries": "0..=300 offered",
         "products": ["main x aux x rands (boundary values)", "extension x folding x remainder x blowup (full)", "grinding x queries (full)", "trace_length x constraint_count"], "comparison": "all pairs of all accepted contexts of a field (not only within one family)"});
     report.rule = "one evaluation per distinct accepted context (its seed vector); every pair of them is compared through a map keyed by the canonical bytes of the vector; all are non-trivial".into();
